@@ -156,7 +156,7 @@ def run(driver, res, prop):
             args.append('%s=%s' % (k, cv))
     env = dict(os.environ, ASAN_OPTIONS='detect_leaks=0:abort_on_error=0:exitcode=1', UBSAN_OPTIONS='halt_on_error=1:exitcode=1:print_stacktrace=0')
     try:
-        r = subprocess.run([exe] + args, capture_output=True, text=True, timeout=120, env=env)
+        r = subprocess.run([exe] + args, capture_output=True, text=True, errors='replace', timeout=120, env=env)
     except subprocess.TimeoutExpired:
         return 'reproduced', 'native run did not terminate within 120 s; args: ' + ' '.join(args)
     out = (r.stdout + r.stderr)[-3000:]
